@@ -42,6 +42,7 @@ pub const KINDS: &[&str] = &[
     "restart",
     "name-flood",
     "clock-warp",
+    "host-mask",
     "entry-pure",
     "stdio-full",
     "thread-churn",
@@ -110,6 +111,11 @@ fn error_req(i: usize) -> Request {
 pub fn clock_of(idx: u64) -> crate::plan::ClockWarp {
     let days = (idx.wrapping_mul(7919) % 3650) as i128;
     crate::plan::ClockWarp { base_ns: days * 86_400_000_000_000, step_ns: 3_600_000_000_000 }
+}
+
+/// Host mask of a warp session (0 = none): cycles with the session index.
+pub fn host_of(idx: u64) -> u8 {
+    (idx % crate::plan::HOST_MASKS as u64) as u8
 }
 
 struct Builder {
@@ -479,6 +485,11 @@ pub fn plan_session(p: &SessionParams, pool: &Pool) -> (Plan, SessionMeta) {
         q.idx = p.idx - WARP_BASE;
         let (mut plan, mut meta) = plan_session(&q, pool);
         plan.clock = Some(clock_of(p.idx));
+        if host_of(p.idx) != 0 {
+            plan.host = Some(host_of(p.idx));
+            meta.enabled.push("host-mask".into());
+            meta.fired.insert("host-mask".into(), plan.steps.len());
+        }
         meta.enabled.push("clock-warp".into());
         meta.enabled.push("stdio-full".into());
         meta.fired.insert("clock-warp".into(), plan.steps.len());
